@@ -45,7 +45,7 @@ fn judge(ctx: &Ctx, s: &StateRef, input: &str, st: &mut Stats) -> Option<(String
     let args = ["version", "-C", &dir, "--input-format", input, "--output-format", "zerv"];
     let r = zv::run_cli(&args, None);
     let key = format!("{} [input-format {input}]", s.label);
-    let case = json!({"kind":"git","ops":s.shape.ops,"tags":s.tags.iter().map(|t| json!({"name":t.name,"commit":t.target,"annotated":t.annotated})).collect::<Vec<_>>(),"head":format!("{:?}", s.head),"worktree":format!("{:?}", s.wt),"dates":s.repo.dates,"input_format":input});
+    let case = json!({"kind":"git","ops":s.shape.ops,"tags":s.tags.iter().map(|t| json!({"name":t.name,"commit":t.target,"annotated":t.annotated})).collect::<Vec<_>>(),"head":format!("{:?}", s.head),"worktree":format!("{:?}", s.wt),"dates":s.repo.dates,"input_format":input,"sha256":s.repo.sha256});
     let hc = head_commit(s);
     let reach = s.shape.ancestors_or_self(hc);
     // nearest validly tagged commits
@@ -154,7 +154,7 @@ fn main() {
         let hs = case["head"].as_str().unwrap_or("");
         let head = if let Some(r) = hs.strip_prefix("Detached(") { Head::Detached(r.trim_end_matches(')').parse().unwrap_or(0)) } else { Head::Branch(hs.trim_start_matches("Branch(\"").trim_end_matches("\")").to_string()) };
         let wt = WorkTree::ALL.into_iter().find(|w| format!("{w:?}") == case["worktree"].as_str().unwrap_or("Clean")).unwrap_or(WorkTree::Clean);
-        let mut repo = Repo::create(&root, "replay", &shape, &dates);
+        let mut repo = Repo::create_fmt(&root, "replay", &shape, &dates, case["sha256"].as_bool().unwrap_or(false));
         repo.set_tags(&tags); repo.set_head(&head); repo.set_worktree(wt, "f0");
         let mut st = Stats::default();
         let sr = StateRef { shape: &shape, tags: &tags, head: &head, wt, repo: &repo, label: format!("replay ops {ops:?} tags {:?} head {head:?} worktree {wt:?}", tags.iter().map(|t| format!("{}@{}", t.name, t.target)).collect::<Vec<_>>()), cdir: None };
@@ -231,16 +231,19 @@ fn main() {
     let linear = Shape { parents: vec![vec![], vec![0], vec![1]], branches: [("main".to_string(), 2)].into_iter().collect(), cur: "main".into(), ops: vec!["commit".into(), "commit".into()] };
     let max_subset = if quick { 4 } else { 8 };
     let subsets: Vec<u32> = (0u32..256).filter(|m| (m.count_ones() as usize) <= max_subset).collect();
-    let s_c = subsets.par_chunks(16).enumerate().map(|(ci, chunk)| {
+    // (every chunk of subsets alternately in a SHA-1 and a SHA-256 repository; thorough: both)
+    let fmt_chunks: Vec<(usize, &[u32], bool)> = subsets.chunks(16).enumerate().flat_map(|(ci, c)| if quick { vec![(ci, c, ci % 2 == 1)] } else { vec![(ci, c, false), (ci, c, true)] }).collect();
+    let s_c = fmt_chunks.par_iter().map(|&(ci, chunk, sha256)| {
         let mut st = Stats::default();
-        let mut repo = Repo::create(&root, &format!("c{ci}"), &linear, &gitx::dates(3, DateMode::Increasing));
+        let mut repo = Repo::create_fmt(&root, &format!("c{ci}{}", if sha256 { "x" } else { "" }), &linear, &gitx::dates(3, DateMode::Increasing), sha256);
+        if sha256 { st.inc("sha256_repositories"); }
         for &mask in chunk {
             let tags: Vec<Tag> = (0..8).filter(|i| mask & (1 << i) != 0).map(|i| Tag { name: names8[i].0.to_string(), target: 1, annotated: names8[i].1 }).collect();
             repo.set_tags(&tags);
             for head in [Head::Detached(1), Head::Branch("main".into())] {
                 repo.set_head(&head);
                 st.inc("states"); st.inc("per_commit_states");
-                let label = format!("tags on one commit {:?} head {:?}", tags.iter().map(|t| t.name.as_str()).collect::<Vec<_>>(), head);
+                let label = format!("tags on one commit {:?} head {:?}{}", tags.iter().map(|t| t.name.as_str()).collect::<Vec<_>>(), head, if sha256 { " [sha256 object format]" } else { "" });
                 let sr = StateRef { shape: &linear, tags: &tags, head: &head, wt: WorkTree::Clean, repo: &repo, label, cdir: None };
                 for input in ["auto", "semver", "pep440"] { judge(&ctx, &sr, input, &mut st); }
             }
@@ -261,15 +264,18 @@ fn main() {
     };
     let s_d = baselines.par_iter().enumerate().map(|(bi, (shape, tags, head))| {
         let mut st = Stats::default();
-        let mut repo = Repo::create(&root, &format!("d{bi}"), shape, &gitx::dates(shape.parents.len(), DateMode::Increasing));
+        // the second baseline lives in a SHA-256 repository
+        let mut repo = Repo::create_fmt(&root, &format!("d{bi}"), shape, &gitx::dates(shape.parents.len(), DateMode::Increasing), bi == 1);
         repo.set_tags(tags);
         for wt in WorkTree::ALL {
+            // (a SHA-1 repository nested in a SHA-256 superproject is not a sub-module git can compare: those states stay SHA-1 only)
+            if repo.sha256 && matches!(wt, WorkTree::GitlinkMoved | WorkTree::GitlinkMovedStaged | WorkTree::SubmoduleCheckedOutClean | WorkTree::SubmoduleUntrackedInside | WorkTree::SubmoduleModifiedInside) { continue; }
             repo.set_head(head);
             repo.reset_worktree();
             let tracked = format!("f{}", 0);
             repo.set_worktree(wt, &tracked);
             st.inc("states"); st.inc("worktree_states");
-            let label = format!("worktree {wt:?} on ops {:?} tags {:?} head {head:?}", shape.ops, tags.iter().map(|t| t.name.as_str()).collect::<Vec<_>>());
+            let label = format!("worktree {wt:?} on ops {:?} tags {:?} head {head:?}{}", shape.ops, tags.iter().map(|t| t.name.as_str()).collect::<Vec<_>>(), if repo.sha256 { " [sha256 object format]" } else { "" });
             let sr = StateRef { shape, tags, head, wt, repo: &repo, label, cdir: None };
             for input in ["auto", "pep440"] { judge(&ctx, &sr, input, &mut st); }
             repo.reset_worktree();
@@ -420,7 +426,7 @@ fn main() {
     cov.evaluations = all.get("evaluations") + all.get("render_evaluations");
     cov.traces_validated = all.get("states");
     cov.distinct_nontrivial = all.get("tagged_evaluations");
-    cov.rule = format!("layer A: BFS over commit / branch&checkout / checkout / merge(ff or true merge) from a one-commit repository, commits <= {nc}, extra branches <= {nb}: {} distinct shapes ({} used{}), {} explorer transitions; layer B: every placement of <= {tmax} tags from {:?} on any commits x HEAD at every branch tip and detached at every commit x date modes (increasing; decreasing, zig-zag and all-equal for merge shapes); layer C: every subset of <= {max_subset} of 8 names {:?} on one commit x 2 HEAD positions x 3 input formats; layer D: 27 work-tree states (incl. untracked files covered only by the user-level core.excludesFile or by .git/info/exclude) x {} baseline repositories; layer E: 11 branch names (with '/', '.', non-ASCII, equal to a version tag / a non-version tag / a ref-namespace word) x a tag of the same short name (absent, lightweight or annotated, on the middle commit or the tip) x HEAD on that branch / the other branch / detached x 3 input formats; layer F: checkouts whose .git is a file (linked worktree beside and nested inside the main work tree, separate git directory) clean and with an untracked file; layer G: a linear history of 100001 (thorough 300001) commits with the nearest valid tag 9999 .. 100000 commits behind HEAD. Every state is materialised in real git by fast-import, conformance-checked with `git log --all` / `for-each-ref` / `symbolic-ref` / `status --porcelain=v2`, and judged against R-GIT (nearest validly tagged commit, highest tag under R-SV / C11 order (auto mode: highest under either format that accepts it), distance = |reach(HEAD) minus reach(tag)|, dirty, branch, hashes, times). non-trivial = evaluations that have a valid reachable tag", all_shapes.len(), shapes.len(), if quick { ": all with <= 3 commits plus the 4-commit merge shapes" } else { "" }, shape_transitions, alpha.iter().map(|a| a.0).collect::<Vec<_>>(), names8.iter().map(|a| a.0).collect::<Vec<_>>(), baselines.len());
+    cov.rule = format!("layer A: BFS over commit / branch&checkout / checkout / merge(ff or true merge) from a one-commit repository, commits <= {nc}, extra branches <= {nb}: {} distinct shapes ({} used{}), {} explorer transitions; layer B: every placement of <= {tmax} tags from {:?} on any commits x HEAD at every branch tip and detached at every commit x date modes (increasing; decreasing, zig-zag and all-equal for merge shapes); layer C: every subset of <= {max_subset} of 8 names {:?} on one commit x 2 HEAD positions x 3 input formats, the chunks of subsets alternately (thorough: both) in SHA-1 and SHA-256 repositories (64-digit object names); layer D: 27 work-tree states (incl. untracked files covered only by the user-level core.excludesFile or by .git/info/exclude) x {} baseline repositories; layer E: 11 branch names (with '/', '.', non-ASCII, equal to a version tag / a non-version tag / a ref-namespace word) x a tag of the same short name (absent, lightweight or annotated, on the middle commit or the tip) x HEAD on that branch / the other branch / detached x 3 input formats; layer F: checkouts whose .git is a file (linked worktree beside and nested inside the main work tree, separate git directory) clean and with an untracked file; layer G: a linear history of 100001 (thorough 300001) commits with the nearest valid tag 9999 .. 100000 commits behind HEAD. Every state is materialised in real git by fast-import, conformance-checked with `git log --all` / `for-each-ref` / `symbolic-ref` / `status --porcelain=v2`, and judged against R-GIT (nearest validly tagged commit, highest tag under R-SV / C11 order (auto mode: highest under either format that accepts it), distance = |reach(HEAD) minus reach(tag)|, dirty, branch, hashes, times). non-trivial = evaluations that have a valid reachable tag", all_shapes.len(), shapes.len(), if quick { ": all with <= 3 commits plus the 4-commit merge shapes" } else { "" }, shape_transitions, alpha.iter().map(|a| a.0).collect::<Vec<_>>(), names8.iter().map(|a| a.0).collect::<Vec<_>>(), baselines.len());
     cov.exhaustive = !was_capped;
     cov.samples = vec![json!({"ops":["branch b1","commit","checkout main","commit","merge b1"],"dates":"decreasing","tags":["v2.0.0@1","v1.0.0@0"],"head":"main"}), json!({"one_commit_tags":["v1.0.0","1.1.0rc1","1.1.0.post1"],"input_format":"auto"}), json!({"worktree":"IgnoredOnly","head":"detached"})];
     cov.set("clause_counts", all.to_json());
